@@ -17,6 +17,20 @@ Verdicts == /\ Check("EqualsDefinition", EqualsDefinition, TRUE)
             /\ Check("OneDiagPerClient", OneDiagPerClient, TRUE)
             /\ Check("EmptyRoundFixpoint", EmptyRoundFixpoint, TRUE)
             /\ OkSoFar
+\* Mime with plain SGD and a single local step: one full-batch gradient step over the cohort, scaled by the server
+\* learning rate (inst.mime_slr):  w - slr * lr * (w - mean of all examples of the cohort), leaf by leaf
+RECURSIVE SumAll(_, _)
+SumAll(S, lf) == IF S = {} THEN 0
+                ELSE LET c == CHOOSE x \in S : TRUE
+                         idx == [i \in 1..Len(inst.data[c]) |-> i]
+                     IN SumX(c, idx, lf) + SumAll(S \ {c}, lf)
+FullBatchGrad(r, w) == LET n == Examples(Cohort(r))
+                       IN [lf \in Leaves |-> IF n = 0 THEN RZero ELSE RSub(w[lf], Norm(SumAll(Cohort(r), lf), n))]
+RECURSIVE MimeAfter(_)
+MimeAfter(r) == IF r = 0 THEN inst.init
+                ELSE LET w == MimeAfter(r - 1)
+                     IN VSub(w, VScale(FullBatchGrad(r, w), RMul(inst.mime_slr, inst.copt.lr)))
 EmitOracle == Finished => PrintT("JSON " \o ToJson([tid |-> tid, rounds |-> [r \in 1..Len(hist) |-> hist[r].p],
-                                                    sstate |-> sstate]))
+                                                    sstate |-> sstate,
+                                                    mime |-> [r \in 1..inst.rounds |-> MimeAfter(r)]]))
 =============================================================================
